@@ -141,3 +141,15 @@ mod tests {
         assert_eq!(q.pull(), Some((5, 'e')));
     }
 }
+
+#[cfg(nexosim_verif)]
+impl<K: Copy + Ord, V> PriorityQueue<K, V> {
+    /// Verification hook: read-only dump of the queue content as `(key,
+    /// epoch, value)` in unspecified order.
+    pub(crate) fn verif_dump(&self) -> Vec<(K, u64, &V)> {
+        self.heap
+            .iter()
+            .map(|item| (item.key, item.epoch, &item.value))
+            .collect()
+    }
+}
